@@ -233,6 +233,7 @@ func (p Poly) asAtom() string {
 // ---------------------------------------------------------------------------------------------
 
 type Normer struct {
+	noRot       bool          // LoopWhile in progress: do not add loop invariants recursively
 	StripNarrow string        // callCases: a final conversion of a helper result to this integer type is dropped
 	Root        *ssa.Function // the function whose parameters carry the role names
 	resolving   map[*ssa.Parameter]bool
@@ -380,6 +381,9 @@ func (n *Normer) Norm(v ssa.Value) Poly {
 		case token.SUB:
 			return pScale(n.Norm(x.X), -1)
 		case token.MUL:
+			if st := resultSpillStore(x); st != nil {
+				return n.Norm(st.Val) // `return v` in a function with defers: v is parked in a local and read back
+			}
 			return n.normLoad(x.X)
 		case token.NOT:
 			return pAtom("Not(" + n.Norm(x.X).asAtom() + ")")
@@ -400,6 +404,9 @@ func (n *Normer) Norm(v ssa.Value) Poly {
 	case *ssa.Phi:
 		if i, ok := n.PhiChoice[x]; ok && i < len(x.Edges) {
 			return n.Norm(x.Edges[i])
+		}
+		if hp := rotatedExitAlias(x); hp != nil {
+			return n.Norm(hp) // the loop variable's value when the (bottom-tested) loop ends
 		}
 		n.opaque("phi " + x.Name() + " in " + n.P.FuncName(x.Parent()))
 		return pAtom(fmt.Sprintf("phi:%s.%s", n.P.FuncName(x.Parent()), x.Name()))
@@ -1409,4 +1416,46 @@ func (n *Normer) fieldOf(v ssa.Value, f int, depth int) (Poly, bool) {
 		return p, ok
 	}
 	return nil, false
+}
+
+// resultSpillStore: in a function with deferred calls go/ssa compiles `return v` to "store v into a
+// result local; run the defers; load it; return". When the local is private to the function (not
+// captured by a closure, address not passed on) the load yields the value stored last before it in
+// the same block.
+func resultSpillStore(ld *ssa.UnOp) *ssa.Store {
+	a, ok := ld.X.(*ssa.Alloc)
+	if !ok || a.Heap {
+		return nil
+	}
+	for _, r := range *a.Referrers() {
+		switch x := r.(type) {
+		case *ssa.Store:
+			if x.Addr != ssa.Value(a) {
+				return nil
+			}
+		case *ssa.UnOp, *ssa.DebugRef:
+		default:
+			return nil
+		}
+	}
+	// only when the load feeds a return directly
+	feedsReturn := false
+	for _, r := range *ld.Referrers() {
+		if _, isRet := r.(*ssa.Return); isRet {
+			feedsReturn = true
+		}
+	}
+	if !feedsReturn {
+		return nil
+	}
+	var last *ssa.Store
+	for _, ins := range ld.Block().Instrs {
+		if ins == ssa.Instruction(ld) {
+			break
+		}
+		if st, ok := ins.(*ssa.Store); ok && st.Addr == ssa.Value(a) {
+			last = st
+		}
+	}
+	return last
 }
